@@ -12,13 +12,23 @@ Conventions
 * the kernel is addressed in bytes (`mprotect P k addr len perm`), exactly like
   the system calls; page indices are `addr / P`;
 * blocks are handed out by a bump pointer `brk` (a page index), so live blocks
-  are disjoint and a freed page is never reused;
+  are disjoint and A FREED PAGE IS NEVER REUSED (`alloc` takes `base := m.k.brk`).  glibc hands freed blocks out
+  again; reuse is covered only through the state a freed block is left in: rw, unlocked, wiped —
+  `C14.drop_restores`, `C15.release_zeroed` — and through `allocAt` (allocation at an arbitrary base page, not used
+  by the interpreter): the page part of the invariant survives it whenever the pages handed out are rw, unlocked
+  and owned by no live block (`C14.reused_block_keeps_page_invariant`; `alloc` = `allocAt` at `brk`);
 * a lock request is *counted* only when it reaches `mlock(2)` (non-empty data);
-  the `i`-th counted request since the last `failfrom` is granted iff
-  `oracle i`; a granted request on a `PROT_NONE` page fails in the kernel but
-  leaves the pages marked locked (Linux: `VM_LOCKED` is set before the
-  population fails); the repaired `dryoc_mlock` therefore calls `munlock` on
-  its failure path (`Cfg.undo`, `false` only in the counter-model).
+  the `i`-th counted request since the last `failfrom` gets the answer `oracle i : LockAns`:
+  `grant` (the call goes through; on a `PROT_NONE` page it still fails in the kernel but leaves the pages marked
+  locked — Linux sets `VM_LOCKED` before the population fails), `refuse` (clean refusal, the kernel's lock flags
+  are not touched), `failFlagged` (the pages are ACCESSIBLE, the kernel flags them `VM_LOCKED` and then fails while
+  populating: `EAGAIN` / `ENOMEM`); the repaired `dryoc_mlock` therefore calls `munlock` on its failure path
+  (`Cfg.undo`, `false` only in the counter-model).  `Bool` oracles coerce: `true ↦ grant`, `false ↦ refuse`;
+* `madvise`: `dryoc_mlock` sets `MADV_DONTDUMP` before `mlock`, `dryoc_munlock` sets `MADV_DODUMP` before `munlock`
+  (`Kernel.dontdump`, `madviseK`); the failure path of `dryoc_mlock` calls the BARE `libc::munlock`, so the flag
+  survives a failed lock, and survives the drop that follows (record `Unlocked`: no `dryoc_munlock`) — observation
+  `C14.drop_restores_dump_refuted` (harmless: the flag only excludes more from core dumps); without a failed lock the
+  flag is gone after the last drop (`C14.drop_restores_dump`).
 
 RUNTIME RECORD vs TYPE STATE.  A region (`Obj`) carries TWO descriptions of its state: `st`, the type-level one
 (`Protected<A, PM, LM>` or a bare container), and `rcd`, the runtime record `d.lm` / `d.pm` of `int::InternalData`.
@@ -36,8 +46,16 @@ every type state (`opZeroize`); `clonefrom:<j>` the default `Clone::clone_from`;
 GHOST LOGS.  `Kernel.al` / `Kernel.fr` record every `(base page, size)` passed through `alloc` / `dealloc`; nothing
 reads them (they exist for `C15.alloc_release_balance_pairs`).
 
+FAULTS.  `Res.segv` is produced by the three probe tokens only; the byte-touching primitives below (`zeroizeV`,
+`fillV`, `writeV`, `setV`, `vecClone`, `wipeN`, …) transform buffers and never consult `Kernel.perm`.  Whether the
+byte accesses of a real operation land on pages that allow them is a separate, explicit predicate:
+`Model/ProtectedTouch.lean` (`stepTouchesOk c s t`, mirroring `stepCore` operation by operation), with the theorem
+`C14.step_no_segv` (every token, every state satisfying the invariant) and the counter-models
+`C14.forgetful_protect_drop_segv`, `C14.zeroize_mprotect_fails_segv`.
+
 WHAT CAN FAIL.  The only fallible system call of this model is `mlock` (`dryocMlock` returns a
-`Bool`: refused by the oracle, or failing in the kernel on `PROT_NONE` pages).  Every other wrapper
+`Bool`: refused by the oracle, failing after the pages were flagged (`failFlagged`), or failing in the kernel on
+`PROT_NONE` pages).  Every other wrapper
 is INFALLIBLE here: `dryocMunlock` and `dryocMprotect` return no status, so the tokens `unlock`,
 `ro`, `rw`, `na` (`opUnlock`, `opProtect`, `opNa`) always answer `ok` on a live region, and `alloc`
 takes the effect of its three `mprotect` calls for granted (the Rust swallows their results with
@@ -47,6 +65,16 @@ when the system call fails, and `Drop`/`Zeroize` only print such an error.  A fa
 or `mprotect(2)` is therefore NOT REPRESENTABLE in this model; wherever the theorems of C14 / C15 /
 C19 say "every history", "failure paths" or "err", the failures meant are refused / failed `mlock`
 requests (and the length mismatch of `from_slice_*`), nothing else.
+The consequences of the three failures the Rust IGNORES are stated as conditional counter-models
+(`Proofs/ProtectedUnrep.lean`, re-exported in C14 (k) / C19):
+* not representable: a failing `mprotect_readwrite` inside `Protected::zeroize` (= `Drop`; `.map_err(eprintln).ok()`,
+  then the wipe); consequence if it happened: theorem `C14.zeroize_mprotect_fails_segv` — on a read-only / no-access
+  region the wipe touches a non-writable page (SIGSEGV inside `Drop`);
+* not representable: a failing `munlock(2)` in the `munlock` transition (`?` returns `Err`, `self` is dropped with
+  the record still `Locked`, `Drop` retries and ignores the error); consequence if it happened: theorem
+  `C14.munlock_fails_leaks` — the pages go back to the allocator locked, `lockedPages > 0` after the last drop;
+* not representable: a swallowed failure of a guard-page `mprotect_noaccess` in `allocate`; consequence if it
+  happened: theorem `C14.alloc_guards_fail_no_guards` — a region without guard pages behind a handle of the same type.
 -/
 namespace DryocVerif.Model.Protected
 
@@ -77,11 +105,15 @@ structure Kernel where
   al : List (Nat × Nat) := []
   /-- GHOST: every block given back to `deallocate`, as `(base page, size)`, in order -/
   fr : List (Nat × Nat) := []
+  /-- `VM_DONTDUMP` (Linux): set by the `madvise(MADV_DONTDUMP)` of `dryoc_mlock`, cleared by the
+  `madvise(MADV_DODUMP)` of `dryoc_munlock`; nothing else touches it (in particular NOT the bare `libc::munlock`
+  on the failure path of `dryoc_mlock`, and not `deallocate`).  No theorem about permissions / lock flags reads it. -/
+  dontdump : Nat → Bool := fun _ => false
 
 /-- first page index ever handed out (page 0 is never mapped) -/
 def startPage : Nat := 1
 
-def Kernel.init : Kernel := ⟨fun _ => .rw, fun _ => false, startPage, [], []⟩
+def Kernel.init : Kernel := ⟨fun _ => .rw, fun _ => false, startPage, [], [], fun _ => false⟩
 
 def setRange {α : Type} (f : Nat → α) (lo hi : Nat) (x : α) : Nat → α :=
   fun i => if lo ≤ i ∧ i < hi then x else f i
@@ -117,38 +149,73 @@ def munlockK (P : Nat) (k : Kernel) (addr len : Nat) : Kernel :=
 
 def lockedPages (k : Kernel) : Nat := (List.range k.brk).countP fun i => k.locked i
 
+/-- `madvise(addr, len, MADV_DONTDUMP)` (`b = true`) / `MADV_DODUMP` (`b = false`) -/
+def madviseK (P : Nat) (k : Kernel) (addr len : Nat) (b : Bool) : Kernel :=
+  { k with dontdump := setRange k.dontdump (addr / P) (pageEnd P addr len) b }
+
+/-- number of pages below the bump pointer that are excluded from core dumps -/
+def dontdumpPages (k : Kernel) : Nat := (List.range k.brk).countP fun i => k.dontdump i
+
 /-! ## machine = kernel + lock oracle + release log -/
+
+/-- what `mlock(2)` does with a request that reaches it:
+* `grant`: the call goes through (`mlockK`: it can still fail there, on `PROT_NONE` pages);
+* `refuse`: a clean refusal that leaves the kernel's lock flags alone (`RLIMIT_MEMLOCK` exceeded, `EPERM`, the
+  harness' failing shim);
+* `failFlagged`: Linux flags the pages `VM_LOCKED` FIRST and populates them afterwards; when the population fails
+  (`EAGAIN` / `ENOMEM`) on ACCESSIBLE pages the call reports failure and the flags stay — which is why the
+  repaired `dryoc_mlock` calls `libc::munlock` on its error path (`Cfg.undo`). -/
+inductive LockAns where
+  | grant | refuse | failFlagged
+  deriving DecidableEq, Repr
+
+/-- a `Bool` answer: `true ↦ grant`, `false ↦ refuse` -/
+def LockAns.ofBool : Bool → LockAns
+  | true => .grant
+  | false => .refuse
+
+instance : Coe Bool LockAns := ⟨LockAns.ofBool⟩
+
+/-- `Bool` oracles (the driver's, `failOracle`, and the ones of the statements written before `LockAns` existed)
+are oracles: `true ↦ grant`, `false ↦ refuse` -/
+instance : Coe (Nat → Bool) (Nat → LockAns) := ⟨fun f i => LockAns.ofBool (f i)⟩
 
 structure Mach where
   k : Kernel
   /-- number of counted lock requests since the last `failfrom` -/
   cnt : Nat
   /-- answer to the `i`-th counted request (`i ≥ 1`) -/
-  oracle : Nat → Bool
+  oracle : Nat → LockAns
   /-- release events `(size, nonzero bytes)` of the current token, in order -/
   rel : List (Nat × Nat)
 
-def Mach.init (oracle : Nat → Bool) : Mach := ⟨Kernel.init, 0, oracle, []⟩
+def Mach.init (oracle : Nat → LockAns) : Mach := ⟨Kernel.init, 0, oracle, []⟩
 
 def failOracle (K : Int) : Nat → Bool := fun i => !(decide (1 ≤ K) && decide (K ≤ (i : Int)))
 
-/-- failure path of `dryoc_mlock`: the repaired code calls `munlock` on the range -/
+/-- failure path of `dryoc_mlock`: the repaired code calls the bare `libc::munlock` on the range (NOT
+`dryoc_munlock`: no `MADV_DODUMP`) -/
 def failedLock (c : Cfg) (m : Mach) (k : Kernel) (addr len : Nat) : Mach :=
   { m with k := if c.undo then munlockK c.P k addr len else k, cnt := m.cnt + 1 }
 
-/-- `dryoc_mlock(data)`: a refused request never reaches the kernel; a granted one may still
-fail there (`PROT_NONE`); in both cases the failure path unlocks the range again -/
+/-- `dryoc_mlock(data)`: `madvise(MADV_DONTDUMP)` first, then `mlock`.  A refused request never reaches the
+kernel's lock flags; a granted one may still fail there (`PROT_NONE`); a `failFlagged` one flags the pages and
+fails; in all three failure cases the failure path unlocks the range again (`failedLock`) -/
 def dryocMlock (c : Cfg) (m : Mach) (addr len : Nat) : Mach × Bool :=
   if len = 0 then (m, true)
-  else if m.oracle (m.cnt + 1) then
-    let r := mlockK c.P m.k addr len
-    if r.2 then ({ m with k := r.1, cnt := m.cnt + 1 }, true)
-    else (failedLock c m r.1 addr len, false)
-  else (failedLock c m m.k addr len, false)
+  else
+    let k0 := madviseK c.P m.k addr len true
+    match m.oracle (m.cnt + 1) with
+    | .grant =>
+      let r := mlockK c.P k0 addr len
+      if r.2 then ({ m with k := r.1, cnt := m.cnt + 1 }, true)
+      else (failedLock c m r.1 addr len, false)
+    | .refuse => (failedLock c m k0 addr len, false)
+    | .failFlagged => (failedLock c m (mlockK c.P k0 addr len).1 addr len, false)
 
-/-- `dryoc_munlock(data)` -/
+/-- `dryoc_munlock(data)`: `madvise(MADV_DODUMP)`, then `munlock` -/
 def dryocMunlock (c : Cfg) (m : Mach) (addr len : Nat) : Mach :=
-  if len = 0 then m else { m with k := munlockK c.P m.k addr len }
+  if len = 0 then m else { m with k := munlockK c.P (madviseK c.P m.k addr len false) addr len }
 
 /-- `dryoc_mprotect_*(data)` -/
 def dryocMprotect (c : Cfg) (m : Mach) (addr len : Nat) (p : Perm) : Mach :=
@@ -187,6 +254,21 @@ def alloc (c : Cfg) (m : Mach) (size : Nat) : Mach × Nat :=
   let base := m.k.brk
   let a := base * P
   let k0 : Kernel := { m.k with brk := base + (pageRound P size + 2 * P) / P, al := m.k.al ++ [(base, size)] }
+  let k1 := mprotect P k0 a P .none
+  let k2 := mprotect P k1 (a + (P + pageRound P size)) P .none
+  let k3 := mprotect P k2 (a + P) size .rw
+  ({ m with k := k3 }, base)
+
+/-- `allocate` handing out the block that starts at an ARBITRARY page `base` — what `posix_memalign` does when it
+reuses a freed block.  Not used by the interpreter (see the header: "the allocator never reuses a page");
+`alloc` is `allocAt` at the bump pointer (`Proofs/ProtectedAllocAt.lean`, `alloc_eq_allocAt`), and the page part of
+the invariant is kept by `allocAt` as soon as the pages handed out are read-write, unlocked and owned by no live
+block (`goodP_allocAt`) — which is the state every freed block is left in (`C14.drop_restores`). -/
+def allocAt (c : Cfg) (m : Mach) (base size : Nat) : Mach × Nat :=
+  let P := c.P
+  let a := base * P
+  let k0 : Kernel := { m.k with brk := max m.k.brk (base + (pageRound P size + 2 * P) / P),
+                                al := m.k.al ++ [(base, size)] }
   let k1 := mprotect P k0 a P .none
   let k2 := mprotect P k1 (a + (P + pageRound P size)) P .none
   let k3 := mprotect P k2 (a + P) size .rw
@@ -333,7 +415,7 @@ structure State where
   m : Mach
   slots : List Slot
 
-def State.init (oracle : Nat → Bool) : State := ⟨Mach.init oracle, []⟩
+def State.init (oracle : Nat → LockAns) : State := ⟨Mach.init oracle, []⟩
 
 inductive Res where
   | ok | err | na | noslot | panic | segv | bad
